@@ -80,6 +80,8 @@ def expected_type(col, opts):
             return "BYTE_ARRAY", {("STRING",)}
         if lk == "int":
             return "INT64", {None, ("INT", 64, True)}
+        if lk == "bool":
+            return "BOOLEAN", {None}
         return "DOUBLE", {None}
     raise ValueError(k)
 
@@ -128,7 +130,7 @@ def expected_slots(col, n, opts, optional):
             out.append(ns // 1000)
         elif k == "category":
             lk = col["labels"]
-            out.append(str(v) if lk == "text" else int(v) if lk == "int" else float(v).hex())
+            out.append(str(v) if lk == "text" else int(v) if lk == "int" else bool(v) if lk == "bool" else float(v).hex())
     return out
 
 
